@@ -525,8 +525,8 @@ fn mem_stream(r: &mut Rng, nhist: usize, st: &mut Stats) {
             let mkb = |p: usize| format!("(mkb {} {})", fsz[p], zl((from..=to).map(|h| chain.cnts[(h - BASE) as usize][p])));
             let bs = format!("({}, {}, {})", mkb(0), mkb(1), mkb(2));
             case(format!(
-                "CPut false {} {} {} {} {} {} {} {} {} {} true false",
-                budget, chunk, w3_s(&pre), opol_s(&pol), f, bs, res_s, w3_s(&post), truth_s(&heights, &sz), boolc(roots_ok)
+                "CPut false {} {} {} {} {} {} {} {} {} {} true false {}",
+                budget, chunk, w3_s(&pre), opol_s(&pol), f, bs, res_s, w3_s(&post), truth_s(&heights, &sz), boolc(roots_ok), boolc(roots_ok)
             ));
             st.bump("mem_put");
             scanned_max = scanned_max.max(to);
@@ -587,7 +587,9 @@ struct World {
     frontiers: [Vec<u64>; 3],
     /// a rewind went to a position strictly inside a completed subtree that an earlier frontier
     /// insertion had covered with one of its ommers (level >= 1)
-    hazard: bool,
+    hazard: [bool; 3],
+    /// tree sizes of the birthday frontier (leaves the wallet never sees)
+    gsize: [u64; 3],
 }
 /// `p` lies inside, and is not the last position of, the ommer of the frontier at `q` that covers it
 fn inside_ommer(p: u64, q: u64) -> bool {
@@ -597,18 +599,43 @@ fn inside_ommer(p: u64, q: u64) -> bool {
     let l = 63 - (p ^ q).leading_zeros() as u64; // highest differing bit
     l >= 1 && (p & ((1u64 << l) - 1)) != (1u64 << l) - 1
 }
+/// A frontier with `size` leaves whose leaf and ommers are arbitrary field elements.
+fn random_frontier<H: Hashable + Clone, const D: u8>(size: u64, rng: &mut ChaChaRng, mk: impl Fn([u8; 32]) -> H) -> Frontier<H, D> {
+    if size == 0 {
+        return Frontier::empty();
+    }
+    let mut node = |rng: &mut ChaChaRng| {
+        let mut b = [0u8; 32];
+        rng.fill_bytes(&mut b[..24]);
+        mk(b)
+    };
+    let pos = size - 1;
+    let leaf = node(rng);
+    let ommers: Vec<H> = (0..pos.count_ones()).map(|_| node(rng)).collect();
+    Frontier::from_parts(Position::from(pos), leaf, ommers).expect("frontier")
+}
 fn seed32(rng: &mut ChaChaRng) -> [u8; 32] {
     let mut b = [0u8; 32];
     rng.fill_bytes(&mut b);
     b
 }
 impl World {
-    fn new(mut rng: ChaChaRng, iv: u32) -> World {
+    fn new(rng: ChaChaRng, iv: u32) -> World {
+        World::with_birthday(rng, iv, [0; 3])
+    }
+    /// A wallet whose birthday frontier already holds `gsize[p]` (unknown, random) leaves in pool p.
+    fn with_birthday(mut rng: ChaChaRng, iv: u32, gsize: [u64; 3]) -> World {
         let net = network();
         let mut db = TestDbFactory::default()
             .new_data_store(net, Some(AnchorRetentionInterval::custom(NonZeroU32::new(iv).unwrap())), None)
             .expect("data store");
-        let genesis = ChainState::empty(BlockHeight::from_u32(BASE - 1), BlockHash([0; 32]));
+        let genesis = ChainState::new(
+            BlockHeight::from_u32(BASE - 1),
+            BlockHash([0; 32]),
+            random_frontier(gsize[0], &mut rng, |b| Option::from(sapling::Node::from_bytes(b)).unwrap()),
+            random_frontier(gsize[1], &mut rng, |b| Option::from(orchard::tree::MerkleHashOrchard::from_bytes(&b)).unwrap()),
+            random_frontier(gsize[2], &mut rng, |b| Option::from(orchard::tree::MerkleHashOrchard::from_bytes(&b)).unwrap()),
+        );
         let birthday = AccountBirthday::from_parts(genesis.clone(), None);
         let seed = SecretVec::new(seed32(&mut rng).to_vec());
         let (acct, usk) = db.create_account("a", &seed, &birthday, None).expect("account");
@@ -627,7 +654,8 @@ impl World {
             genesis,
             rng,
             frontiers: [vec![], vec![], vec![]],
-            hazard: false,
+            hazard: [false; 3],
+            gsize,
         }
     }
     fn tip(&self) -> u32 {
@@ -786,12 +814,24 @@ where
 }
 
 struct Merkle {
-    roots_ok: bool,
-    wit_ok: bool,
+    roots: [bool; 3],
+    wits: [bool; 3],
+}
+impl Merkle {
+    fn roots_ok(&self) -> bool {
+        self.roots.iter().all(|b| *b)
+    }
+    fn wit_ok(&self) -> bool {
+        self.wits.iter().all(|b| *b)
+    }
+    /// roots and witnesses are fine in every pool that no hazardous rewind (C06-F2) touched
+    fn clean_ok(&self, hazard: &[bool; 3]) -> bool {
+        (0..3).all(|p| hazard[p] || (self.roots[p] && self.wits[p]))
+    }
 }
 
 fn check_merkle(w: &mut World, led: &[Ledger; 3], which: &[Vec<u32>; 3], r: &mut Rng, st: &mut Stats) -> Merkle {
-    let mut m = Merkle { roots_ok: true, wit_ok: true };
+    let mut m = Merkle { roots: [true; 3], wits: [true; 3] };
     // roots
     let hs0 = which[0].clone();
     let got0 = w.db.with_sapling_tree_mut::<_, _, TErr>(|t| Ok(pool_roots(t, &hs0))).unwrap();
@@ -801,13 +841,13 @@ fn check_merkle(w: &mut World, led: &[Ledger; 3], which: &[Vec<u32>; 3], r: &mut
             (Ok(Some(g)), Some(wt)) => {
                 st.bump("roots_checked");
                 if g != wt {
-                    m.roots_ok = false;
+                    m.roots[0] = false;
                     if std::env::var("C06_TRACE").is_ok() { eprintln!("  ROOT_MISMATCH at {h}"); }
                     st.bump("ROOT_MISMATCH");
                 }
             }
             (Ok(None), _) | (_, None) => {
-                m.roots_ok = false;
+                m.roots[0] = false;
                 st.bump("ROOT_ABSENT");
             }
             (Err(_), _) => st.bump("root_uncomputable"),
@@ -821,13 +861,13 @@ fn check_merkle(w: &mut World, led: &[Ledger; 3], which: &[Vec<u32>; 3], r: &mut
             (Ok(Some(g)), Some(wt)) => {
                 st.bump("roots_checked");
                 if g != wt {
-                    m.roots_ok = false;
+                    m.roots[1] = false;
                     if std::env::var("C06_TRACE").is_ok() { eprintln!("  ROOT_MISMATCH at {h}"); }
                     st.bump("ROOT_MISMATCH");
                 }
             }
             (Ok(None), _) | (_, None) => {
-                m.roots_ok = false;
+                m.roots[1] = false;
                 st.bump("ROOT_ABSENT");
             }
             (Err(_), _) => st.bump("root_uncomputable"),
@@ -841,13 +881,13 @@ fn check_merkle(w: &mut World, led: &[Ledger; 3], which: &[Vec<u32>; 3], r: &mut
             (Ok(Some(g)), Some(wt)) => {
                 st.bump("roots_checked");
                 if g != wt {
-                    m.roots_ok = false;
+                    m.roots[2] = false;
                     if std::env::var("C06_TRACE").is_ok() { eprintln!("  ROOT_MISMATCH at {h}"); }
                     st.bump("ROOT_MISMATCH");
                 }
             }
             (Ok(None), _) | (_, None) => {
-                m.roots_ok = false;
+                m.roots[2] = false;
                 st.bump("ROOT_ABSENT");
             }
             (Err(_), _) => st.bump("root_uncomputable"),
@@ -917,8 +957,8 @@ fn check_merkle(w: &mut World, led: &[Ledger; 3], which: &[Vec<u32>; 3], r: &mut
             Ok(Some(path)) => {
                 st.bump("witnesses_checked");
                 let want = w.state_after(*h).map(|s| s.final_sapling_tree().root());
-                if (*p as usize) >= ls.len() || Some(path.root(ls[*p as usize].clone())) != want {
-                    m.wit_ok = false;
+                if *p < w.gsize[0] || ((*p - w.gsize[0]) as usize) >= ls.len() || Some(path.root(ls[(*p - w.gsize[0]) as usize].clone())) != want {
+                    m.wits[0] = false;
                     if std::env::var("C06_TRACE").is_ok() { eprintln!("  WITNESS_MISMATCH pos {p} at {h}"); }
                     st.bump("WITNESS_MISMATCH");
                 }
@@ -937,8 +977,8 @@ fn check_merkle(w: &mut World, led: &[Ledger; 3], which: &[Vec<u32>; 3], r: &mut
             Ok(Some(path)) => {
                 st.bump("witnesses_checked");
                 let want = w.state_after(*h).map(|s| s.final_orchard_tree().root());
-                if (*p as usize) >= lo.len() || Some(path.root(lo[*p as usize])) != want {
-                    m.wit_ok = false;
+                if *p < w.gsize[1] || ((*p - w.gsize[1]) as usize) >= lo.len() || Some(path.root(lo[(*p - w.gsize[1]) as usize])) != want {
+                    m.wits[1] = false;
                     if std::env::var("C06_TRACE").is_ok() { eprintln!("  WITNESS_MISMATCH pos {p} at {h}"); }
                     st.bump("WITNESS_MISMATCH");
                 }
@@ -958,8 +998,8 @@ fn check_merkle(w: &mut World, led: &[Ledger; 3], which: &[Vec<u32>; 3], r: &mut
             Ok(Some(path)) => {
                 st.bump("witnesses_checked");
                 let want = w.state_after(*h).map(|s| s.final_ironwood_tree().root());
-                if (*p as usize) >= li.len() || Some(path.root(li[*p as usize])) != want {
-                    m.wit_ok = false;
+                if *p < w.gsize[2] || ((*p - w.gsize[2]) as usize) >= li.len() || Some(path.root(li[(*p - w.gsize[2]) as usize])) != want {
+                    m.wits[2] = false;
                     if std::env::var("C06_TRACE").is_ok() { eprintln!("  WITNESS_MISMATCH pos {p} at {h}"); }
                     st.bump("WITNESS_MISMATCH");
                 }
@@ -1052,7 +1092,7 @@ fn emit_trunc(w: &mut World, req: u32, r: &mut Rng, st: &mut Stats) -> Option<u3
             for p in 0..3 {
                 if let Some((_, Some(pos))) = pre[p].0.iter().find(|e| e.0 == *got) {
                     if w.frontiers[p].iter().any(|q| inside_ommer(*pos, *q)) {
-                        w.hazard = true;
+                        w.hazard[p] = true;
                         st.bump("hazard_rewinds");
                     }
                     let pos = *pos;
@@ -1062,7 +1102,7 @@ fn emit_trunc(w: &mut World, req: u32, r: &mut Rng, st: &mut Stats) -> Option<u3
         }
     }
     if trace() {
-        eprintln!("  op truncate req {req} tip {} -> {:?} hazard {}", w.tip(), res, w.hazard);
+        eprintln!("  op truncate req {req} tip {} -> {:?} hazard {:?}", w.tip(), res, w.hazard);
     }
     let post = read_ledger(&mut w.db);
     let which = which_roots(&pre, &post, false, r);
@@ -1075,7 +1115,7 @@ fn emit_trunc(w: &mut World, req: u32, r: &mut Rng, st: &mut Stats) -> Option<u3
         Err(_) => err("EOtherErr"),
     };
     case(format!(
-        "CTrunc {} {} ({}, {}, {}) {} {} {} {} {} {}",
+        "CTrunc {} {} ({}, {}, {}) {} {} {} {} {} {} {}",
         w3_s(&pre),
         zl(blocks.iter().map(|x| *x as u64)),
         opt(mn[0].map(|x| zu(x as u128))),
@@ -1084,12 +1124,81 @@ fn emit_trunc(w: &mut World, req: u32, r: &mut Rng, st: &mut Stats) -> Option<u3
         req,
         res_s,
         w3_s(&post),
-        boolc(m.roots_ok),
-        boolc(m.wit_ok),
-        boolc(w.hazard)
+        boolc(m.roots_ok()),
+        boolc(m.wit_ok()),
+        boolc(w.hazard.iter().any(|b| *b)),
+        boolc(m.clean_ok(&w.hazard))
     ));
     st.bump(if res.is_ok() { "trunc_ok" } else { "trunc_err" });
     res.ok()
+}
+
+/// `WalletWrite::truncate_to_chain_state(chain state of height target)`, one CTcs case.
+fn emit_tcs(w: &mut World, target: u32, r: &mut Rng, st: &mut Stats) -> bool {
+    let Some(cs) = w.state_after(target).cloned() else { return false };
+    let sizes = w.sizes(target).unwrap();
+    let pre = read_ledger(&mut w.db);
+    let (blocks, mn) = blocks_and_minnotes(w);
+    let res: Result<(), String> = {
+        let db = &mut w.db;
+        match catch(|| db.truncate_to_chain_state(cs)) {
+            None => Err("PANIC".into()),
+            Some(Ok(())) => Ok(()),
+            Some(Err(e)) => Err(match e {
+                SqliteClientError::RequestedRewindInvalid { .. } => "RewindInvalid".to_string(),
+                SqliteClientError::CorruptedData(s) => format!("Corrupted {s}"),
+                e => format!("{e:?}"),
+            }),
+        }
+    };
+    let post = read_ledger(&mut w.db);
+    if res.is_ok() && blocks.last().map_or(false, |l| target < *l) {
+        // every pool was physically truncated to the frontier position of the target
+        for p in 0..3 {
+            if sizes[p] > 0 {
+                let pos = sizes[p] - 1;
+                if w.frontiers[p].iter().any(|q| inside_ommer(pos, *q)) {
+                    w.hazard[p] = true;
+                    st.bump("hazard_rewinds");
+                }
+                w.frontiers[p].retain(|q| *q <= pos);
+                w.frontiers[p].push(pos);
+            }
+        }
+    }
+    if trace() {
+        eprintln!("  op truncate_to_chain_state target {target} tip {} blocks max {:?} -> {:?} hazard {:?}", w.tip(), blocks.last(), res, w.hazard);
+    }
+    let which = which_roots(&pre, &post, false, r);
+    let m = check_merkle(w, &post, &which, r, st);
+    let res_s = match &res {
+        Ok(()) => "(Ok tt)".to_string(),
+        Err(e) if e == "PANIC" => PANIC.to_string(),
+        Err(e) if e.starts_with("RewindInvalid") => err("ERewindInvalid"),
+        Err(e) if e.starts_with("Corrupted") => err("ECorrupted"),
+        Err(e) if e.contains("CheckpointConflict") => err("EConflict"),
+        Err(_) => err("EOtherErr"),
+    };
+    case(format!(
+        "CTcs {} {} ({}, {}, {}) {} ({}, {}, {}) {} {} {} {} {} {}",
+        w3_s(&pre),
+        zl(blocks.iter().map(|x| *x as u64)),
+        opt(mn[0].map(|x| zu(x as u128))),
+        opt(mn[1].map(|x| zu(x as u128))),
+        opt(mn[2].map(|x| zu(x as u128))),
+        target,
+        sizes[0],
+        sizes[1],
+        sizes[2],
+        res_s,
+        w3_s(&post),
+        boolc(m.roots_ok()),
+        boolc(m.wit_ok()),
+        boolc(w.hazard.iter().any(|b| *b)),
+        boolc(m.clean_ok(&w.hazard))
+    ));
+    st.bump(if res.is_ok() { "tcs_ok" } else { "tcs_err" });
+    res.is_ok()
 }
 
 /// `scan_cached_blocks(from, limit)` on the current best chain, one CPut case.
@@ -1126,11 +1235,19 @@ fn emit_scan(w: &mut World, iv: u32, from: u32, limit: usize, full: bool, r: &mu
     let m = check_merkle(w, &post, &which, r, st);
     let heights: BTreeSet<u32> = post.iter().flat_map(|l| l.0.iter().map(|e| e.0)).collect();
     let pol = Some((BASE, vec![iv]));
+    // a refusal by the Merkle layer names the pool: it is excused only when THAT pool is hazardous
+    let hz = match &res {
+        Err(e) if e.contains("pool: Sapling") => w.hazard[0],
+        Err(e) if e.contains("pool: Orchard") => w.hazard[1],
+        Err(e) if e.contains("pool: Ironwood") => w.hazard[2],
+        Err(_) => false,
+        Ok(()) => w.hazard.iter().any(|b| *b),
+    };
     {
         let wref = &*w;
         let sz = |p: usize, h: u32| -> Option<u64> { wref.sizes(h).map(|s| s[p]) };
         case(format!(
-            "CPut true {} {} {} {} {} ((mkb {} {}), (mkb {} {}), (mkb {} {})) {} {} {} {} {} {}",
+            "CPut true {} {} {} {} {} ((mkb {} {}), (mkb {} {}), (mkb {} {})) {} {} {} {} {} {} {}",
             PRUNING_DEPTH,
             CHUNK,
             w3_s(&pre),
@@ -1145,9 +1262,10 @@ fn emit_scan(w: &mut World, iv: u32, from: u32, limit: usize, full: bool, r: &mu
             res_s,
             w3_s(&post),
             truth_s(&heights, &sz),
-            boolc(m.roots_ok),
-            boolc(m.wit_ok),
-            boolc(w.hazard)
+            boolc(m.roots_ok()),
+            boolc(m.wit_ok()),
+            boolc(hz),
+            boolc(m.clean_ok(&w.hazard))
         ));
     }
     if res.is_ok() && to >= from {
@@ -1164,6 +1282,99 @@ fn emit_scan(w: &mut World, iv: u32, from: u32, limit: usize, full: bool, r: &mu
     } else {
         None
     }
+}
+
+const SHARD: u64 = 1 << 16;
+
+/// (shard index, end height, position of the level-16 root among the frontier's parts) of the first
+/// shard completed by the current best chain in pool `p`, if any.
+fn completed_shard(w: &World, p: usize) -> Option<(u64, u32)> {
+    let k = w.gsize[p] / SHARD;
+    for (i, _) in w.chain.iter().enumerate() {
+        let h = BASE + i as u32;
+        if w.sizes(h).unwrap()[p] >= (k + 1) * SHARD {
+            return Some((k, h));
+        }
+    }
+    None
+}
+fn level16_root<H: Hashable + Clone, const D: u8>(f: &Frontier<H, D>, k: u64) -> H {
+    let ne = f.value().expect("non-empty");
+    let pos = u64::from(ne.position());
+    if pos + 1 == (k + 1) * SHARD {
+        ne.root(Some(Level::from(16)))
+    } else {
+        assert_eq!(pos >> 16, k + 1);
+        ne.ommers()[(pos & (SHARD - 1)).count_ones() as usize].clone()
+    }
+}
+
+/// `put_*_subtree_roots` with the chain's own roots of the shards completed so far (as a light
+/// client server would deliver them); one CRoots case. The ledger must not change.
+fn emit_roots(w: &mut World, p: usize, r: &mut Rng, st: &mut Stats) {
+    use zcash_client_backend::data_api::chain::CommitmentTreeRoot;
+    let Some((k, h)) = completed_shard(w, p) else { return };
+    let pre = read_ledger(&mut w.db);
+    let after = w.state_after(h).unwrap().clone();
+    let eh = BlockHeight::from_u32(h);
+    // a shard below the birthday (k = 1): its root is the level-16 ommer of the birthday frontier
+    let res: Result<(), String> = match p {
+        0 => {
+            let mut roots = vec![];
+            if k == 1 {
+                roots.push(CommitmentTreeRoot::from_parts(BlockHeight::from_u32(BASE - 100), level16_root(w.genesis.final_sapling_tree(), 0)));
+            }
+            roots.push(CommitmentTreeRoot::from_parts(eh, level16_root(after.final_sapling_tree(), k)));
+            let db = &mut w.db;
+            catch(|| db.put_sapling_subtree_roots(0, &roots)).map_or(Err("PANIC".into()), |x| x.map_err(|e| format!("{e:?}")))
+        }
+        1 => {
+            let mut roots = vec![];
+            if k == 1 {
+                roots.push(CommitmentTreeRoot::from_parts(BlockHeight::from_u32(BASE - 100), level16_root(w.genesis.final_orchard_tree(), 0)));
+            }
+            roots.push(CommitmentTreeRoot::from_parts(eh, level16_root(after.final_orchard_tree(), k)));
+            let db = &mut w.db;
+            catch(|| db.put_orchard_subtree_roots(0, &roots)).map_or(Err("PANIC".into()), |x| x.map_err(|e| format!("{e:?}")))
+        }
+        _ => {
+            let mut roots = vec![];
+            if k == 1 {
+                roots.push(CommitmentTreeRoot::from_parts(BlockHeight::from_u32(BASE - 100), level16_root(w.genesis.final_ironwood_tree(), 0)));
+            }
+            roots.push(CommitmentTreeRoot::from_parts(eh, level16_root(after.final_ironwood_tree(), k)));
+            let db = &mut w.db;
+            catch(|| db.put_ironwood_subtree_roots(0, &roots)).map_or(Err("PANIC".into()), |x| x.map_err(|e| format!("{e:?}")))
+        }
+    };
+    if trace() {
+        eprintln!("  op put_subtree_roots pool {p} shard {k} end {h} -> {:?}", res);
+    }
+    let post = read_ledger(&mut w.db);
+    let which = which_roots(&pre, &post, true, r);
+    let m = check_merkle(w, &post, &which, r, st);
+    let res_s = match &res {
+        Ok(()) => "(Ok tt)".to_string(),
+        Err(e) if e == "PANIC" => PANIC.to_string(),
+        Err(_) => err("EOtherErr"),
+    };
+    case(format!(
+        "CRoots {} {} {} {} {} {} {}",
+        w3_s(&pre),
+        res_s,
+        w3_s(&post),
+        boolc(m.roots_ok()),
+        boolc(m.wit_ok()),
+        boolc(w.hazard.iter().any(|b| *b)),
+        boolc(m.clean_ok(&w.hazard))
+    ));
+    st.bump(if res.is_ok() { "roots_ok_ops" } else { "roots_err_ops" });
+}
+
+fn mk_world_b(seed: u64, idx: u64, iv: u32, gsize: [u64; 3]) -> World {
+    let mut rng = ChaChaRng::seed_from_u64(seed ^ 0xc06c_06c0_6000_0000 ^ idx);
+    rng.set_stream(77);
+    World::with_birthday(rng, iv, gsize)
 }
 
 fn mk_world(seed: u64, idx: u64, iv: u32) -> World {
@@ -1234,6 +1445,115 @@ fn scripted_histories(seed: u64, r: &mut Rng, st: &mut Stats) {
         }
         st.bump("wallet_histories");
     }
+    // The start frontier of a tip-first batch is a retention boundary B without shielded output: it
+    // must be registered as retained by that batch, so that it survives the >100 checkpoints of the
+    // batch and is still there when the range ending at B is scanned later.
+    {
+        if trace() {
+            eprintln!("scripted frontier-boundary");
+        }
+        let iv = 10;
+        let mut w = mk_world(seed, 1_000_005, iv);
+        for h in 0..=160u32 {
+            if h == 3 || h > 10 {
+                w.push_block(&[(1, false)]);
+            } else {
+                w.push_block(&[]);
+            }
+        }
+        emit_scan(&mut w, iv, BASE + 11, 1000, false, r, st);
+        emit_scan(&mut w, iv, BASE + 2, 9, false, r, st);
+        for _ in 0..3 {
+            w.push_block(&[(1, false)]);
+            let t = w.tip();
+            emit_scan(&mut w, iv, t, 1, false, r, st);
+        }
+        emit_scan(&mut w, iv, BASE, 2, true, r, st);
+        st.bump("wallet_histories");
+    }
+    // A birthday frontier 6 leaves below the end of Orchard shard 0; the shard's root is delivered
+    // through put_orchard_subtree_roots; 131 blocks synced in batches of ten; a deep rewind below
+    // every Orchard checkpoint (ResetToSubtreeRoots) across the shard end; a different continuation.
+    {
+        if trace() {
+            eprintln!("scripted shard-end reset");
+        }
+        let iv = 144;
+        let mut w = mk_world_b(seed, 1_000_006, iv, [0, SHARD - 6, 0]);
+        for _ in 0..131 {
+            w.push_block(&[(1, false)]);
+        }
+        emit_roots(&mut w, 1, r, st);
+        let mut from = BASE;
+        while from <= w.tip() {
+            emit_scan(&mut w, iv, from, 10, false, r, st);
+            from += 10;
+        }
+        if let Some(got) = emit_trunc(&mut w, BASE + 2, r, st) {
+            w.fork_at(got);
+            for _ in 0..20 {
+                w.push_block(&[(1, true)]);
+            }
+            emit_scan(&mut w, iv, got + 1, 1000, true, r, st);
+            emit_roots(&mut w, 1, r, st);
+        }
+        st.bump("wallet_histories");
+    }
+    // truncate_to_chain_state with a target inside a gap of unscanned blocks / at scanned heights
+    {
+        if trace() {
+            eprintln!("scripted tcs");
+        }
+        let iv = 144;
+        let mut w = mk_world(seed, 1_000_007, iv);
+        for h in 0..70u32 {
+            w.push_block(&[(h as usize % 2, h % 7 == 0)]);
+        }
+        emit_scan(&mut w, iv, BASE, 11, false, r, st);
+        emit_scan(&mut w, iv, BASE + 21, 1000, false, r, st);
+        if emit_tcs(&mut w, BASE + 15, r, st) {
+            w.fork_at(BASE + 15);
+            for _ in 0..12 {
+                w.push_block(&[(0, true), (1, false)]);
+            }
+            emit_scan(&mut w, iv, BASE + 11, 1000, true, r, st);
+        }
+        if emit_tcs(&mut w, BASE + 20, r, st) {
+            emit_scan(&mut w, iv, BASE + 21, 3, false, r, st);
+        }
+        if emit_tcs(&mut w, BASE + 5, r, st) {
+            w.fork_at(BASE + 5);
+            for _ in 0..8 {
+                w.push_block(&[(1, true)]);
+            }
+            emit_scan(&mut w, iv, BASE + 6, 1000, true, r, st);
+        }
+        st.bump("wallet_histories");
+    }
+    // the rewind target lies in a gap of unscanned blocks below the oldest shared checkpoint, which
+    // is the (unscanned) start frontier of the later range
+    {
+        if trace() {
+            eprintln!("scripted tcs gap");
+        }
+        let iv = 144;
+        let mut w = mk_world(seed, 1_000_008, iv);
+        let n: u32 = std::env::var("C06_GAPN").ok().and_then(|s| s.parse().ok()).unwrap_or(98);
+        for h in 0..(22 + n) {
+            w.push_block(&[(h as usize % 2, h % 7 == 0)]);
+        }
+        emit_scan(&mut w, iv, BASE, 11, false, r, st);
+        emit_scan(&mut w, iv, BASE + 21, n as usize, false, r, st);
+        emit_scan(&mut w, iv, BASE + 21 + n, 1, false, r, st);
+        if emit_tcs(&mut w, BASE + 15, r, st) {
+            w.fork_at(BASE + 15);
+            for _ in 0..12 {
+                w.push_block(&[(0, true), (1, true)]);
+            }
+            emit_scan(&mut w, iv, BASE + 11, 1000, true, r, st);
+        }
+        st.bump("wallet_histories");
+    }
     // C06-F2: rewind into a completed subtree whose hash an earlier frontier insertion cached.
     {
         if trace() {
@@ -1297,7 +1617,13 @@ fn wallet_history(seed: u64, idx: u64, r: &mut Rng, st: &mut Stats, long: bool) 
                 2 => scanned_hi.saturating_sub(r.below(120) as u32),
                 _ => scanned_hi.saturating_sub(r.below(12) as u32),
             };
-            if let Some(got) = emit_trunc(&mut w, req, r, st) {
+            let use_tcs = r.chance(1, 3) && req + 1 >= BASE && req <= w.tip();
+            let got_opt = if use_tcs {
+                if emit_tcs(&mut w, req, r, st) { Some(req) } else { None }
+            } else {
+                emit_trunc(&mut w, req, r, st)
+            };
+            if let Some(got) = got_opt {
                 let (blocks2, _) = blocks_and_minnotes(&w);
                 scanned_hi = blocks2.last().copied().unwrap_or(BASE - 1);
                 pending_gap = None;
@@ -1410,6 +1736,9 @@ fn main() {
     let mut r3 = Rng::new(a.seed, 8);
     let nh = a.budget(9, 150);
     scripted_histories(a.seed, &mut r3, &mut st);
+    if std::env::var("C06_SCRIPTS_ONLY").is_ok() {
+        return;
+    }
     let only: Option<usize> = std::env::var("C06_ONLY").ok().and_then(|s| s.parse().ok());
     for i in 0..nh {
         let long = i % 3 == 0;
